@@ -208,7 +208,7 @@ TRIVIA_RULE = ("ring 2 (`semi`): seeded statement pairs A;B - A one of 6 kinds w
 PROPS["C03"] = {
     "lean_modules": ["StyluaModel.Props.C03"],
     "theorem_prefix": "C03_",
-    "required_theorems": ["C03_load", "C03_text_line", "C03_text_block", "C03_paren_partial", "C03_sort_perm", "C03_eof_comments", "C03_semi_required", "C03_semi_removed", "C03_semi_removed_needs_newline", "C03_semi_swallow_witness", "C03_hang_binop", "C03_hang_binop_fuses_witness", "C03_field_key", "C03_field_key_name_partial", "C03_field_key_name_loses_key_trailing", "C03_end_token", "C03_punct_comma", "C03_sugar_add", "C03_sugar_drop_partial", "C03_sugar_drop_loses_paren_comments", "C03_table_field", "C03_call_arg", "C03_leading_line_safe", "C03_end_token_line_safe"],
+    "required_theorems": ["C03_load", "C03_text_line", "C03_text_block", "C03_paren_partial", "C03_sort_perm", "C03_eof_comments", "C03_semi_required", "C03_semi_removed", "C03_semi_removed_needs_newline", "C03_semi_swallow_witness", "C03_hang_binop", "C03_hang_binop_fuses_witness", "C03_field_key", "C03_field_key_name_partial", "C03_field_key_name_loses_key_trailing", "C03_end_token", "C03_punct_comma", "C03_sugar_add", "C03_sugar_drop_partial", "C03_sugar_drop_loses_paren_comments", "C03_table_field", "C03_call_arg", "C03_leading_line_safe", "C03_end_token_line_safe", "C03_moved_comments_line_safe"],
     "hx": [["c03"], ["pipe"], ["slots"], ["c12"], ["progen"]],
     "level": "proof",
     "level_text": "Proof, partial: load_token_trivia (through which every token's trivia passes) keeps every comment once, in order, with kind and level, text normalised only by trim_end / newline conversion (theorems for lists of any length); the parenthesis transplant carries a sublist (full preservation is proven false of the code: counterexample theorem); require sorting is a permutation; the trivia of a kept, added or dropped semicolon (format_block) carries every comment of the statement and of the semicolon once and in order - given the statement's trailing trivia ends with its newline, and with the same-line swallowing by a trailing line comment exhibited as a computed witness (D23 family); hang_binop gathers the comments around a hung operator once and in order (with the fusing of a trailing comment into a preceding line comment as a computed witness); the comments around a table field's key and `=` are all moved in front of a bracketed key, and all but those behind the key for a name key (proved partial statement + witness: D29, whose mechanism - Node::surrounding_trivia on a one-token node - the correspondence exposed); format_end_token keeps every comment in front of a closing token while removing the blank lines; the leading trivia of every formatted token, and of a closing token after that removal, is line-safe (no line comment in it can swallow the token: `C03_leading_line_safe`, `C03_end_token_line_safe`). That every construct routes every token through these functions is carried by the comment-slot enumeration (every token gap of 46 constructs) and the corpus census, whose unchanged-tree failures are listed exactly.",
